@@ -674,18 +674,13 @@ func runCSSParser(r *core.Run, tasks *[]*engTask) {
 		r.BrokenAnchor("css.Parser.Next")
 		return
 	}
-	pushed := map[*ssa.Function]bool{}
-	for _, f := range cssParserFuncs(r) {
-		if f.Name() == "NewParser" {
-			continue
-		}
-		for _, op := range stackOps(f, "css.Parser", "state") {
-			if op.kind == "push" {
-				if t := thunkTarget(op.pushed); t != nil {
-					pushed[t] = true
-				}
-			}
-		}
+	cm := cssModelOf(r)
+	pushed := cm.pushed
+	errPath, stackPath := "css.Parser."+cm.errField, "css.Parser."+cm.stack
+	if cm.errField == "" || cm.stack == "" {
+		r.SetRule("R-EOFNEST")
+		r.BrokenAnchor("css.Parser error-message / state-stack fields")
+		return
 	}
 	var targets []*ssa.Function
 	for f := range pushed {
@@ -700,7 +695,7 @@ func runCSSParser(r *core.Run, tasks *[]*engTask) {
 	for _, t := range targets {
 		t := t
 		cfg := EngCfg{Rel: "css", Owners: map[string]bool{"css.Parser": true}, Only: "R-EOFNEST", NoTile: true,
-			DynTargets: []*ssa.Function{t}, StrPaths: map[string]bool{"css.Parser.err": true}, Tag: "css.Parser.Next in state " + t.Name()}
+			DynTargets: []*ssa.Function{t}, StrPaths: map[string]bool{errPath: true}, Tag: "css.Parser.Next in state " + t.Name()}
 		e := NewEngine(r, cfg)
 		e.opaqueOK = true // the lexer is a black box here: any token type, cursor unknown
 		e.onReturn = func(st *State, ret []AbsVal, at *ssa.Return) {
@@ -721,7 +716,7 @@ func runCSSParser(r *core.Run, tasks *[]*engTask) {
 					return
 				}
 			}
-			errv, known := st.heap["css.Parser.err"].constInt()
+			errv, known := st.heap[errPath].constInt()
 			switch {
 			case isConst && gt == 0 && known && errv == 1:
 				e.check(st, "R-EOFNEST", key+" (ErrorGrammar with a parse error)", at.Pos(), true, "")
@@ -733,7 +728,7 @@ func runCSSParser(r *core.Run, tasks *[]*engTask) {
 		}
 		st := freshEntry()
 		st.coarse = true
-		st.heap["lo:len(css.Parser.state)"] = intVal(2)
+		st.heap["lo:len("+stackPath+")"] = intVal(2)
 		*tasks = append(*tasks, &engTask{e: e, run: func() { e.Run(fn, st, nil) }})
 	}
 }
